@@ -96,8 +96,11 @@ fn fnv(bs: &[u8]) -> u64 {
 }
 
 pub fn generate(thorough: bool, seed: u64, out: &mut dyn Write) {
+    generate_n(if thorough { 4000 } else { 300 }, thorough, seed, out)
+}
+
+pub fn generate_n(n: usize, thorough: bool, seed: u64, out: &mut dyn Write) {
     let mut rng = Rng::new(seed, "XINF");
-    let n = if thorough { 4000 } else { 300 };
     for i in 0..n {
         let len = match rng.below(8) {
             0 => rng.below(4),
